@@ -1,18 +1,59 @@
+_Q = {
+    "routes_judged": 7000, "routes_multi_hop": 2500,
+    "oracle_connectivity_evals": 10000, "oracle_amount_range_evals": 10000,
+    "oracle_bandwidth_evals": 4000, "oracle_forwarding_fee_evals": 3000,
+    "oracle_expiry_gap_evals": 3000, "oracle_fee_limit_evals": 7000,
+    "oracle_cltv_limit_evals": 7000, "oracle_restrictions_evals": 2500,
+    "oracle_totals_evals": 7000, "oracle_onion_fits_evals": 7000,
+    "oracle_blinded_range_evals": 350,
+    "routes_with_inbound_fee": 1500, "routes_inbound_clamped": 800,
+    "routes_tight_limit": 1500, "routes_restricted": 800,
+    "routes_parallel_choice": 1500, "routes_self_payment": 400,
+    "routes_blinded": 350, "routes_with_hints": 300,
+    "routes_payload_near_limit": 150, "routes_via_payment_session": 300,
+}
+
 PROP = {
     "level": "exploration",
     "technique": ("runtime monitor: independent per-hop re-evaluation (exact math/big C09 forwarding rule, limits, "
-                  "restrictions, totals, onion size) of every route returned by the real findPath+newRoute / "
-                  "paymentSession.RequestRoute over generated channel graphs in a real graph DB"),
-    "level_text": "",
-    "level_note": "",
+                  "restrictions, totals, onion size) of every route returned by the real findPath+newRoute "
+                  "(FindRoute composition) and paymentSession.RequestRoute over generated channel graphs held in a "
+                  "real graph DB (with and without graph cache)"),
+    "level_text": ("Generated directed multigraphs (3-7 nodes, 3-12 channels incl. parallel ones, asymmetric / missing / "
+                   "disabled policies, min/max HTLC and capacity at the amount +-1, zero and negative inbound fees larger "
+                   "than the outbound fee, time-lock deltas 0..2016) are written into a real lnd graph DB; 8 queries per "
+                   "graph (amounts at capacity/bandwidth/min/max +-1, outgoing-channel / last-hop / ignored node+pair "
+                   "restrictions, bandwidth hints through the real bandwidthManager, destination payloads sized so the "
+                   "1300-byte onion limit binds, route hints, blinded tails, self-payments, source != self), each followed "
+                   "by re-queries with fee limit and CLTV limit set to the found optimum and optimum-1. Every returned "
+                   "route is judged against the harness's own graph description. 2e3 graphs / ~2.9e4 pathfinding calls "
+                   "quick, 1e5 graphs / ~1.4e6 calls thorough."),
+    "level_note": ("Sampled, not exhaustive. Soundness only: a 'no route' answer is never judged. Inside a blinded tail "
+                   "only the aggregate constraints (fee, CLTV delta, htlc min/max) are judged at the introduction node. "
+                   "Route-hint edges carry no min/max/capacity, so only fee and delta are judged for them. CLTV-limit "
+                   "reading: RestrictParams.CltvLimit excludes the final CLTV delta (lnd's documented definition; "
+                   "RequestRoute/QueryRoutes subtract it from the payment-level limit), i.e. TotalTimeLock - height - "
+                   "finalDelta <= limit; in session mode finalDelta includes BlockPadding. The disabled flag of a LOCAL "
+                   "channel being ignored (lnd trusts the link/bandwidth hint) is a diagnostic, not a verdict."),
     "design_ref": "DESIGN.md §3 C19",
-    "rule": "",
-    "assumptions": [],
+    "rule": ("A case is one generated graph with 8 pathfinding queries plus tight-limit re-queries; every non-error "
+             "route is judged. Non-trivial = returned routes with >= 2 hops; distinct = distinct (hop count, a "
+             "forwarding node charges an inbound fee, zero-floor clamp bound, tight-limit kind, restriction kinds, "
+             "parallel-channel choice, plain/hints/blinded, self-payment, FindRoute vs payment-session composition) "
+             "classes."),
+    "assumptions": [
+        "ignored nodes/pairs are folded into the ProbabilitySource exactly as routerrpc QueryRoutes does (probability 0)",
+        "amounts <= 2^50 msat, fee rates <= 1e6 ppm, inbound rates within +-3e5 ppm (no int64 overflow domain)",
+        "local bandwidth = what the harness configured on the mock links / hint map; an ineligible link reports 0",
+    ],
+    "eval_counter": "routes_judged",
     "units": [{
         "name": "routes", "pkg": "routing", "test": "TestVerifC19",
         "files": ["routing/c19_test.go"],
         "shards": {"quick": 8, "thorough": 16},
-        "floors": {},
+        "watchdog": {"quick": 900, "thorough": 5400},
+        "floors": {"quick": _Q,
+                   "thorough": {k: v * 50 for k, v in _Q.items()}},
     }],
     "race_anchors": [],
 }
